@@ -216,6 +216,9 @@ class Matcher:
             e = norm_array(e, self.ctx, self.c)
             if e.kind in ('alt', 'tryalt'):
                 out.extend(self.hoist(e))
+                if not e.a and not e.b:
+                    self.c.expanded[id(e)] = []
+                    continue
             out.append(e)
         if side in ('compose', 'spec'):
             out = self.absorb_repeat(out)
